@@ -138,6 +138,28 @@ CLAIMS = {
              'derivative(x) is linear and maps domain to range.',
         note='Trusted: ' + TB + '. Numerical convergence of difference '
              'quotients and array-masking derivatives are not decided.'),
+    'C01': dict(
+        cat='proof', ref='DESIGN.md section 2, C01',
+        tech='symbolic interpretation of _lincomb_impl over the free '
+             'vector-space algebra with exhaustive leaf enumeration '
+             '(regime x aliasing x scalar class, guards solved or forked), '
+             'finite-model evaluation of the BLAS guard, value numbering of '
+             'the element dunders, argument-role rules for delegation',
+        text='All 250 feasible leaves of the lincomb decision tree are '
+             'proved to leave a*x1+b*x2 in out, to write no other operand '
+             'and to be independent of stale out contents (including '
+             '0*NaN); the BLAS guard is proved on a finite model; 90 dunder '
+             'cases of LinearSpaceElement are proved to denote their '
+             'operator, return fresh objects / self and leave operands '
+             'untouched; product-space, discretized-space and tensor-space '
+             'delegation keeps argument roles; lincomb/multiply/divide check'
+             ' membership on every path.  This is for all element values and'
+             ' all sizes in each regime, which sampling cannot cover.',
+        note='Trusted: ' + TB + '; BLAS level-1 summaries scal/axpy/copy; '
+             'ravel() of contiguous data is a view (guarded by R1b).  '
+             'Rounding, strided overlap that is not object identity and '
+             'same-type dunder dispatch in nested power spaces are not '
+             'decided.'),
 }
 
 NOT_YET = 'check not implemented yet in this commit (DESIGN.md section 6 build order)'
